@@ -345,9 +345,11 @@ theorem registerOne_spec (s s' : P2P) (gh : Ghost) (t0 : TLState) (reqs : List R
     ∃ gh', SessInv s' gh' t0 reqs ∧ gh'.T = gh.T ∧ s'.sync.currentFrame = s.sync.currentFrame ∧
       s'.handles = s.handles ∧ s'.pred = s.pred ∧ s'.sparse = s.sparse ∧ s'.maxPrediction = s.maxPrediction ∧
       s'.sync.queues.length = s.sync.queues.length ∧ s'.sync.lastConfirmedFrame = s.sync.lastConfirmedFrame ∧
-      (∀ p, (gh.specs p).vals.length ≤ (gh'.specs p).vals.length) := by
+      (∀ p, (gh.specs p).vals.length ≤ (gh'.specs p).vals.length) ∧
+      ∃ pi, s.pendingInputOf hd = .ok pi ∧
+        gh'.specs = fun i => if i = hd then ((gh.specs hd).submit pi.frame pi.input).1 else gh.specs i := by
   unfold P2P.registerOne at hreg
-  obtain ⟨pi, _, hreg⟩ := bind_ok hreg
+  obtain ⟨pi, hpi, hreg⟩ := bind_ok hreg
   obtain ⟨r, hadd, hreg⟩ := bind_ok hreg
   obtain ⟨sy, actual⟩ := r
   simp only at hreg
@@ -381,7 +383,7 @@ theorem registerOne_spec (s s' : P2P) (gh : Ghost) (t0 : TLState) (reqs : List R
       omega
     have hupd := SessInv_update s gh t0 reqs h hd hp q' _ { rget s.localConnectStatus hd with lastFrame := fr }
       hqi hask hnd hst (fun hc => absurd hloc hc)
-    refine ⟨_, SessInv_congr _ s' _ t0 reqs hupd ?_ ?_ ?_ ?_, rfl, ?_, ?_, ?_, ?_, ?_, ?_, ?_, ?_⟩
+    refine ⟨_, SessInv_congr _ s' _ t0 reqs hupd ?_ ?_ ?_ ?_, rfl, ?_, ?_, ?_, ?_, ?_, ?_, ?_, ?_, ⟨pi, hpi, rfl⟩⟩
     rotate_right
     · intro p
       show _ ≤ (if p = hd then _ else gh.specs p).vals.length
@@ -409,7 +411,7 @@ theorem registerOne_spec (s s' : P2P) (gh : Ghost) (t0 : TLState) (reqs : List R
       omega
     have hupd := SessInv_update s gh t0 reqs h hd hp q' _ (rget s.localConnectStatus hd)
       hqi hask hnd hst (fun hc => absurd hloc hc)
-    refine ⟨_, SessInv_congr _ _ _ t0 reqs hupd rfl rfl ?_ rfl, rfl, rfl, rfl, rfl, rfl, rfl, rset_length _ _ _, rfl, ?_⟩
+    refine ⟨_, SessInv_congr _ _ _ t0 reqs hupd rfl rfl ?_ rfl, rfl, rfl, rfl, rfl, rfl, rfl, rset_length _ _ _, rfl, ?_, ⟨pi, hpi, rfl⟩⟩
     · show s.localConnectStatus = rset s.localConnectStatus hd (rget s.localConnectStatus hd)
       rw [rset_rget_self _ _ hpst]
     · intro p
@@ -450,7 +452,7 @@ theorem registerFold_spec (t0 : TLState) (reqs : List Request) : ∀ (l : List N
     intro s s' gh h hl hf
     simp only [List.foldlM_cons] at hf
     obtain ⟨s1, h1, hf⟩ := bind_ok hf
-    obtain ⟨gh1, hinv1, hT1, hc1, hh1, hp1, hsp1, hm1, hn1, hlc1, hgr1⟩ :=
+    obtain ⟨gh1, hinv1, hT1, hc1, hh1, hp1, hsp1, hm1, hn1, hlc1, hgr1, _⟩ :=
       registerOne_spec s s1 gh t0 reqs a h (hl a List.mem_cons_self) h1
     have hlp : s1.localPlayerHandles = s.localPlayerHandles := by unfold P2P.localPlayerHandles; rw [hh1]
     obtain ⟨gh', hinv', hk⟩ := ih s1 s' gh1 hinv1 (fun x hx => by rw [hlp]; exact hl x (List.mem_cons_of_mem _ hx)) hf
